@@ -22,6 +22,11 @@ pub struct C05Case {
     /// how many times the same partition is applied and healed (1 or 2)
     #[serde(default)]
     pub cycles: u8,
+    /// two-cycle cases only: remove_down_after is finite (but longer than any admissible cycle, see the
+    /// strategy) and the second partition starts so that the first cycle's forget-timers fire this many
+    /// ms after it started, i.e. while the second cycle's Down records are what the healing depends on
+    #[serde(default)]
+    pub forget_offset_ms: Option<u32>,
 }
 
 fn no_trouble(_sim: &Sim, info: &StepInfo) -> Result<(), Fail> {
@@ -75,7 +80,16 @@ pub fn exec(c: &C05Case, out: &mut CaseOut) -> Result<(), Fail> {
     let mut stale_delivery = false;
     let mut converged_at: Option<u64> = None;
     let ad = spec.cfg.periodic_announce_down.as_ref().map(|p| p.every_ms as u64 * MS).unwrap_or(period);
-    for _cycle in 0..cycles {
+    let first_split = sim.now;
+    for cycle in 0..cycles {
+    if let (1, Some(off)) = (cycle, c.forget_offset_ms) {
+        // start the second partition `off` ms before the first cycle's forget-timers begin to fire
+        let target = (first_split + spec.cfg.remove_down_ms as u64 * MS).saturating_sub(off as u64 * MS);
+        if target > sim.now {
+            sim.run_until(target, no_trouble)?;
+            ensure!(sim.fully_converged(false), "C05:reconvergence-not-stable", "the cluster did not stay converged while idle between two partitions\n{}", sim.describe());
+        }
+    }
     let ids_at_split: Vec<Id> = (0..n).map(|i| sim.identity(i)).collect();
     // --- partition
     t_split = sim.now;
@@ -213,6 +227,9 @@ pub fn exec(c: &C05Case, out: &mut CaseOut) -> Result<(), Fail> {
     out.class(if c.asymmetric { "asymmetric_false_death" } else { "two_sided_split" });
     if cycles > 1 {
         out.class("two_partition_cycles");
+        if c.forget_offset_ms.is_some() {
+            out.class("two_cycles_with_first_cycle_forget_timers_firing_in_the_second");
+        }
     }
     if renewed_a > 0 && renewed_b > 0 {
         out.class("both_sides_renewed");
@@ -244,12 +261,22 @@ impl Part for PartitionPart {
         p.announce_down = Some((3, 8));
         p.join_formation = 1;
         p.inject_formation = 3;
-        (cluster_spec(&p), proptest::collection::vec(any::<u16>(), 1..6), prop_oneof![3 => Just(false), 1 => Just(true)], 0..5000u32, prop_oneof![3 => Just(1u8), 1 => Just(2u8)])
-            .prop_map(|(mut spec, side, asymmetric, heal_delay_ms, cycles)| {
+        (cluster_spec(&p), proptest::collection::vec(any::<u16>(), 1..6), prop_oneof![3 => Just(false), 1 => Just(true)], 0..5000u32, prop_oneof![3 => Just(1u8), 1 => Just(2u8)], prop_oneof![1 => Just(None), 1 => (0..30_000u32).prop_map(Some)])
+            .prop_map(|(mut spec, side, asymmetric, heal_delay_ms, cycles, forget)| {
                 if matches!(spec.formation, Formation::Join { .. }) && spec.cfg.periodic_announce.is_none() {
                     spec.cfg.periodic_announce = Some(crate::inst::Periodic { every_ms: 2000, num: 1 });
                 }
-                C05Case { spec, side, asymmetric, heal_delay_ms, cycles }
+                let forget_offset_ms = if cycles == 2 { forget } else { None };
+                if forget_offset_ms.is_some() {
+                    // a finite remove_down_after that still outlasts any cycle this check admits: the longest
+                    // hold (exec's hold_limit), the heal delay, the re-convergence bound and the settling time
+                    let n = spec.n as u32;
+                    let period = spec.cfg.probe_period_ms;
+                    let ad = spec.cfg.periodic_announce_down.as_ref().map(|p| p.every_ms).unwrap_or(period);
+                    let hold = (4 * n + 11) * period + 2 * spec.cfg.suspect_to_down_ms;
+                    spec.cfg.remove_down_ms = hold + 5_000 + (2 * n + 6) * ad + 2 * n * period + 10 * period;
+                }
+                C05Case { spec, side, asymmetric, heal_delay_ms, cycles, forget_offset_ms }
             })
             .boxed()
     }
